@@ -108,6 +108,9 @@ func EnvName(i int) string { return fmt.Sprintf("VERIF_E_%d", i) }
 
 // EnvValue is the (valid) value such a variable holds.
 func EnvValue(o OptDecl) string {
+	if o.EnvVal != "" {
+		return o.EnvVal
+	}
 	if o.Bool {
 		return "true"
 	}
